@@ -154,6 +154,21 @@ def taskJson : Task → Json
   | .val i v => Json.arr #[Json.str "V", ofNat i, ofNat v]
   | .eval ei e li l vi v c => Json.arr #[Json.str "I", ofNat ei, ofNat li, ofNat vi, ofNat e, ofNat l, ofNat v, Json.bool c]
 
+/-- a record of the restored log: ["E",id,params] | ["L",…] | ["V",…] | ["I",[e,l,v],[[row]…]] -/
+def parseRec (j : Json) : Except String (Rec String Row) := do
+  match ← arr j with
+  | [tag, a, b] =>
+    match ← str tag with
+    | "E" => pure (.T1 (← nat a) (← str b))
+    | "L" => pure (.T2 (← nat a) (← str b))
+    | "V" => pure (.T3 (← nat a) (← str b))
+    | "I" => do
+      let k ← parseTriple a
+      let rows ← (← arr b).mapM natList
+      pure (.T4 k rows)
+    | t => throw s!"unknown record tag {t}"
+  | _ => throw "record expected"
+
 def parseCfg (j : Json) : Except String Cfg := do
   match ← natList j with
   | [mp, mc, mt] => pure ({ mp := mp, mc := mc, mt := mt } : Cfg)
@@ -190,6 +205,11 @@ def handle (req : Json) : Except String Json := do
   let heap := (List.range lrns.length).map (fun l => Json.arr #[ofNat (evs.2.2 l).n, ofNat (evs.2.2 l).acc])
   let c := mkComps envs lrns vals
   let hyp := vals.all (fun v => v.mode != 2)
+  let oldJ := fieldD req "old" Json.null
+  let resumed ← if oldJ.isNull then pure Json.null else do
+    let oldRecs ← (← arr oldJ).mapM parseRec
+    pure (obj [("result", resultJson (runResumed c cfg picks seed triples oldRecs)),
+               ("tasks", ofList taskJson (resumedTasks oldRecs triples))])
   pure (obj [("model", resultJson (runPFrom cp cfg sched seed σstart triples)),
              ("spec", resultJson (resultSP cp seed triples)),
              ("hyp", Json.bool hyp),
@@ -199,6 +219,7 @@ def handle (req : Json) : Except String Json := do
              ("multi", Json.bool cfg.multi),
              ("chunks", ofList (ofList taskJson) (chunksOfP cp cfg triples)),
              ("lives", ofList (ofList (ofList taskJson)) (retire cfg.mc (livesOf assign (chunksOfP cp cfg triples)))),
+             ("resumed", resumed),
              ("model_plain", resultJson (run c cfg picks seed triples)),
              ("spec_plain", resultJson (resultS c seed triples))])
 
